@@ -219,7 +219,7 @@ TABLE["C13"] = {
 # bridge modules (lean/InjModel/Tie/<name>.lean: function translated from the source = model function)
 # whose theorems are proof obligations of a property
 TIES = {
-    "C01": ["X86", "Install"], "C13": ["X86", "A64Emit"], "C10": ["X86", "Install"], "C11": ["Alloc", "A64Install"], "C12": ["Alloc", "Install", "Corollaries"],
+    "C01": ["X86", "Install", "InstallGeneral"], "C13": ["X86", "A64Emit"], "C10": ["X86", "Install"], "C11": ["Alloc", "A64Install", "InstallGeneral"], "C12": ["Alloc", "Install", "Corollaries"],
     "C02": ["Install"], "C03": ["Install", "Corollaries"], "C17": ["Install", "Corollaries"], "C15": ["A64", "A64Emit", "A64Install"], "C16": ["A32", "Corollaries"],
 }
 
